@@ -229,6 +229,42 @@ def unit_handler_independence(ctx):
                    func=fn, replay="c08.handlers")
 
 
+def unit_enum_eq(ctx):
+    """_Enum_Compare.__eq__ on the enumerations the zero-TP handling branches on: two members are equal exactly when they are the same
+    member (also for the members whose value is nan or None), a member equals its own name as a string and no other string."""
+    eng = ctx.engine()
+    fn = "panoptica.utils.constants._Enum_Compare.__eq__"
+    eqf = eng.resolve(fn)
+    for dotted in (EC + "EdgeCaseResult", EC + "EdgeCaseZeroTP", MM + "MetricMode", MM + "MetricType", "panoptica.utils.processing_pair.InputType", "panoptica.utils.constants.CCABackend"):
+        cls = eng.resolve(dotted)
+        names = list(cls.members.keys())
+        short = dotted.split(".")[-1]
+
+        def mk(e):
+            return [], {}
+
+        def target(cls=cls, names=names):
+            out = {}
+            for a in names:
+                for b in names:
+                    out[(a, b)] = eng.call(eqf, [cls.members[a], cls.members[b]], {})
+                out[(a, "str")] = (eng.call(eqf, [cls.members[a], a], {}), eng.call(eqf, [cls.members[a], a + "_"], {}), eng.call(eqf, [cls.members[a], 0], {}))
+            return out
+        paths = eng.run(target, mk)
+        ok = len(paths) == 1 and paths[0].kind == "return"
+        wrong = []
+        if ok:
+            v = paths[0].value
+            for a in names:
+                for b in names:
+                    if v[(a, b)] is not (a == b):
+                        wrong.append(f"{a}=={b} -> {v[(a, b)]}")
+                if tuple(v[(a, "str")]) != (True, False, False):
+                    wrong.append(f"{a} vs strings/other -> {v[(a, 'str')]}")
+        ctx.oblige(f"constants._Enum_Compare.__eq__[{short}]/post(members equal iff identical; equal to their own name only)", [], z3.BoolVal(bool(ok and not wrong)),
+                   func=fn, replay="c08.enum_eq", info={"cls": dotted, "wrong": str(wrong[:4]), "structural": True})
+
+
 def unit_result(ctx, mname):
     """PanopticaResult built with tp == 0 and empty lists: aggregate = handler
     value for the scenario, std = empty-list value, counts, no exception."""
@@ -399,6 +435,7 @@ def build(ctx):
     ctx.unit("MetricZeroTPEdgeCaseHandling.__call__", lambda: unit_mztp_call(ctx))
     ctx.unit("EdgeCaseHandler", lambda: unit_handler(ctx))
     ctx.unit("handler independence", lambda: unit_handler_independence(ctx))
+    ctx.unit("_Enum_Compare.__eq__", lambda: unit_enum_eq(ctx))
     for order in MULTI_ORDERS:
         ctx.unit(f"result[{','.join(order)}]", lambda order=order: unit_result_multi(ctx, order))
     for m in ALL_METRICS:
@@ -422,6 +459,8 @@ def concretise(ctx, o, r):
     gi = lambda k, d=0: model_int(m.get(k, d))
     cfg = {s: max(0, min(4, gi(f"cfg_{s}"))) for s in SCENARIOS}
     base = {"cfg": cfg, "std": max(0, min(4, gi("cfg_std"))), "tp": gi("tp"), "npred": max(0, gi("npred")), "nref": max(0, gi("nref"))}
+    if o.replay == "c08.enum_eq":
+        return {"cls": o.info.get("cls")}
     if o.replay == "c08.result_multi":
         return {"order": o.info["order"].split(","), "npred": max(0, gi("npred")), "nref": max(0, gi("nref"))}
     if o.replay == "c08.handlers":
